@@ -1438,7 +1438,18 @@ func genC16(g *G, sc *Scenario, tier string, seed uint64) {
 			sc.Ops = append(sc.Ops, Op{K: "acl", DS: g.Pick([]string{"client1", "client2"}), S: "delete"})
 		case x < 0.13:
 			sc.Ops = append(sc.Ops, Op{K: "restart"})
-		case x < 0.17:
+		case x < 0.155:
+			// a registration is deleted (its ACL goes with it); now and then the hub restarts right after, and the
+			// client is registered again later without any grant
+			c := g.Pick([]string{"client1", "client1", "client2"})
+			sc.Ops = append(sc.Ops, Op{K: "unregister", DS: c})
+			if g.P(0.6) {
+				sc.Ops = append(sc.Ops, Op{K: "restart"})
+			}
+			if g.P(0.7) {
+				sc.Ops = append(sc.Ops, Op{K: "register", DS: c})
+			}
+		case x < 0.18:
 			sc.Ops = append(sc.Ops, Op{K: "advance", N: g.PickInt([]int{60, 600, 1000})})
 		case x < 0.22:
 			sc.Ops = append(sc.Ops, Op{K: "list"})
@@ -1558,7 +1569,11 @@ func genC15(g *G, sc *Scenario, tier string) {
 	sc.Knobs["jobBatch"] = int64(g.Range(1, 4))
 	sc.Knobs["web.batchSize"] = int64(g.PickInt([]int{1, 2, 10}))
 	// a few identifiers whose serialised forms collide as strings with the declared prefix names
-	c.Pool = append(c.Pool, MkS+"K0", MkE+"t1carl", MkE+"t")
+	c.Pool = append(c.Pool, MkS+"K0", MkE+"t1carl", MkE+"t", MkE+"httpStatus", MkE+"https-only")
+	// property and reference keys in both namespaces with the same local names: the serialised key "s:a0" of one
+	// payload and of the next (whose context swaps the prefixes) are different properties
+	c.PropKeys = append(c.PropKeys, MkE+"a0", MkS+"a0")
+	c.Preds = append(c.Preds, MkE+"p0", MkS+"p0")
 	m := NewModel()
 	m.Create("src")
 	mm := NewModel()
